@@ -628,6 +628,19 @@ func (fb *fnBounds) condConstraints(c ssa.Value, pol bool, at ssa.Instruction, d
 		if t.Op == token.NOT {
 			return fb.condConstraints(t.X, !pol, at, d+1)
 		}
+	case *ssa.Extract:
+		// found of strings.CutSuffix / CutPrefix: len(s) = len(before|after) + len(affix)
+		if call, ok := t.Tuple.(*ssa.Call); ok && t.Index == 1 && pol && call.Call.StaticCallee() != nil {
+			switch call.Call.StaticCallee().String() {
+			case "strings.CutSuffix", "strings.CutPrefix":
+				for _, ref := range *call.Referrers() {
+					if ex, ok := ref.(*ssa.Extract); ok && ex.Index == 0 {
+						rest := linVar("len:" + ssaName(ex))
+						return eqs(fb.lenOf(call.Call.Args[0], call, 0), rest.add(fb.lenOf(call.Call.Args[1], call, 0)), call.Call.StaticCallee().Name()+" found the affix")
+					}
+				}
+			}
+		}
 	case *ssa.BinOp:
 		op := t.Op
 		if !pol {
